@@ -1513,6 +1513,27 @@ func (c *Ctx) witnessOr(ws []Witness) []string {
 
 func ruleC16Ctl(c *Ctx) {
 	const rule = "C16-CTRL"
+	// one unit system end to end: sizes are parsed with units.RAMInBytes (binary: 1k = 1024) by
+	// controller and replica; the remote backend hands the request's size string on unchanged
+	for _, fn := range prodFns(c.P) {
+		for _, in := range AnyCallsTo(fn, "github.com/docker/go-units.FromHumanSize") {
+			c.Bad(rule, FnName(fn)+" | decimal size units", c.P.InstrPos(in), "units.FromHumanSize counts 1k = 1000; controller and replica would disagree on the size of the volume (the rest of the code uses units.RAMInBytes)", nil)
+		}
+	}
+	if rf := c.Anchor(rule, "(*backend/remote.Remote).Resize"); rf != nil {
+		R := NewRenderer(rf)
+		okFwd := false
+		eachInstr(rf, func(in ssa.Instruction) {
+			if mu, ok := in.(*ssa.MapUpdate); ok && R.V(mu.Key) == `"size"` {
+				okFwd = R.V(mu.Value) == "$2"
+			}
+		})
+		if okFwd {
+			c.OK(rule, FnName(rf)+" | size forwarded unchanged", c.P.Pos(rf.Pos()), `"size": size`, false)
+		} else {
+			c.Bad(rule, FnName(rf)+" | size forwarded unchanged", c.P.Pos(rf.Pos()), "the resize request sent to the replica does not carry the caller's size string as it is", nil)
+		}
+	}
 	c.Doc(rule, "Controller.Resize: the backend resize is cut off by name==c.Name and newSize-c.size-1>=0 under the controller lock; c.size=newSize is cut off by success of the backend resize (through handleErrorNoLock) and of frontend.Resize")
 	fn := c.Anchor(rule, fCtl+"Resize")
 	if fn == nil {
